@@ -22,10 +22,12 @@ NAMESETS = [["0first"], ["azz"], ["zlast"], ["0first", "zlast"], ["azz", "bzz"]]
 SERVER = ["json_server_str", "json_server_slice", "json_server_reader", "smile_server_slice", "smile_server_reader",
           "smile_server_mut_slice", "json_server_fn_str", "json_server_fn_slice", "json_server_fn_reader",
           "smile_server_fn_slice", "smile_server_fn_reader", "smile_server_fn_mut_slice",
-          "json_server_http", "smile_server_http"]      # the deserializers of conjure-http's JsonEncoding / SmileEncoding
+          "json_server_http", "smile_server_http",
+          "json_server_str_esckey", "json_server_slice_esckey"]      # the undeclared keys spelled with \\uXXXX escapes      # the deserializers of conjure-http's JsonEncoding / SmileEncoding
 CLIENT = ["json_client_str", "json_client_slice", "json_client_reader", "smile_client_slice", "smile_client_reader",
           "smile_client_mut_slice", "json_client_fn_str", "json_client_fn_slice", "json_client_fn_reader",
-          "smile_client_fn_slice", "smile_client_fn_reader", "smile_client_fn_mut_slice"]
+          "smile_client_fn_slice", "smile_client_fn_reader", "smile_client_fn_mut_slice",
+          "json_client_str_esckey", "json_client_reader_esckey"]
 # the object at the end of the path: two declared fields (twice as often), none, one
 SHAPES = ["struct", "struct0", "struct", "struct1"]
 STEPS = ["some", "newtype_struct", "newtype_variant", "seq_elem", "tuple_elem", "tuple_struct_field",
